@@ -3,6 +3,9 @@
 package verifsim
 
 import (
+	"verif.local/simrt"
+	"github.com/anishathalye/porcupine"
+	"time"
 	"context"
 	"fmt"
 	"strings"
@@ -557,4 +560,239 @@ func init() {
 			c.Res.Nontrivial = true
 			c.Res.Summary = fmt.Sprintf("revert boundary sweep: %d cases over sizes %v", c.Res.Cases, sizes)
 		}})
+}
+
+// ---- concurrent callers: the block repository as a linearizable object ---------------------------
+
+type c09cin struct {
+	kind   string // add | revert | tip | hashAt | heightOf
+	hdr    wire.BlockHeader
+	target int
+	hash   bitcoin.Hash32
+}
+
+type c09cout struct {
+	ok     bool
+	hash   bitcoin.Hash32
+	height int
+}
+
+type c09chain struct{ hs string } // concatenated 32-byte hashes, genesis first (immutable value)
+
+func (c c09chain) tip() int { return len(c.hs)/32 - 1 }
+func (c c09chain) at(h int) (out bitcoin.Hash32) {
+	copy(out[:], c.hs[h*32:h*32+32])
+	return
+}
+
+func runC09Concurrent(c *Ctx) {
+	t := c.Scen
+	S := simrt.New(c.Sched)
+	S.PreemptDen = uint32(pickFrom(t, 2, 2, 3, 4))
+	maybeStalls(c, S, 2, 10)
+	disk := NewSimDisk()
+	s := newC09sut(disk)
+	g := mainNetGenesisHeader()
+	var ops []porcupine.Operation
+	var stamp int64
+	finished, nTasks := 0, 0
+	var initChain c09chain
+	var panics []string
+	simrt.Go("setup", func() {
+		if err := s.repo.Load(s.ctx); err != nil {
+			c.Violate("load-error", "initial", "%v", err)
+			return
+		}
+		// a short initial chain; one writer (adds and reverts arrive on one thread in the node:
+		// the headers handler / block processor exclude each other) and 1-3 readers
+		chain := []wire.BlockHeader{g}
+		salt := int(t.Choose(1 << 20))
+		mk := func(prev bitcoin.Hash32) wire.BlockHeader {
+			salt++
+			return wire.BlockHeader{Version: 1, PrevBlock: prev, MerkleRoot: dsha([]byte(fmt.Sprint("cc", salt))), Timestamp: uint32(1500000000 + salt), Bits: 0x1d00ffff, Nonce: uint32(salt)}
+		}
+		n0 := 2 + int(t.Choose(6))
+		if t.Bool(1, 6) {
+			n0 = 997 + int(t.Choose(5))
+		}
+		for i := 0; i < n0; i++ {
+			h := mk(*chain[len(chain)-1].BlockHash())
+			if err := s.repo.Add(s.ctx, &h); err != nil {
+				c.Violate("op-error", "add", "%v", err)
+				return
+			}
+			chain = append(chain, h)
+		}
+		var sb strings.Builder
+		for _, h := range chain {
+			hh := *h.BlockHash()
+			sb.Write(hh[:])
+		}
+		initChain = c09chain{sb.String()}
+		// writer plan (pre-generated against the model so every add links)
+		var wplan []c09cin
+		cur := append([]wire.BlockHeader{}, chain...)
+		for i := 3 + int(t.Choose(6)); i > 0; i-- {
+			if len(cur) > 2 && t.Bool(2, 5) {
+				tg := len(cur) - 2 - int(t.Choose(uint32(minInt(3, len(cur)-2))))
+				wplan = append(wplan, c09cin{kind: "revert", target: tg})
+				cur = cur[:tg+1]
+			} else {
+				h := mk(*cur[len(cur)-1].BlockHash())
+				wplan = append(wplan, c09cin{kind: "add", hdr: h})
+				cur = append(cur, h)
+			}
+		}
+		readers := 1 + int(t.Choose(3))
+		nTasks = readers + 1
+		record := func(client int, in c09cin, f func() c09cout) {
+			simrt.ForceYield()
+			stamp++
+			call := stamp
+			out := f()
+			stamp++
+			ops = append(ops, porcupine.Operation{ClientId: client, Input: in, Call: call, Output: out, Return: stamp})
+		}
+		guardTask := func(f func()) func() {
+			return func() {
+				defer func() {
+					if r := recover(); r != nil {
+						panics = append(panics, fmt.Sprint(r))
+					}
+					finished++
+				}()
+				f()
+			}
+		}
+		simrt.Go("writer", guardTask(func() {
+			for _, in := range wplan {
+				in := in
+				record(0, in, func() c09cout {
+					if in.kind == "add" {
+						return c09cout{ok: s.repo.Add(s.ctx, &in.hdr) == nil}
+					}
+					return c09cout{ok: s.repo.Revert(s.ctx, in.target) == nil}
+				})
+			}
+		}))
+		for r := 0; r < readers; r++ {
+			r := r
+			var plan []c09cin
+			for i := 2 + int(t.Choose(6)); i > 0; i-- {
+				switch t.Choose(3) {
+				case 0:
+					plan = append(plan, c09cin{kind: "tip"})
+				case 1:
+					plan = append(plan, c09cin{kind: "hashAt", target: len(chain) - 1 - int(t.Choose(4)) + int(t.Choose(4))})
+				default:
+					// a hash of the initial chain or of a block the writer will add
+					cands := []bitcoin.Hash32{*chain[len(chain)-1].BlockHash()}
+					for _, w := range wplan {
+						if w.kind == "add" {
+							cands = append(cands, *w.hdr.BlockHash())
+						}
+					}
+					plan = append(plan, c09cin{kind: "heightOf", hash: cands[t.Choose(uint32(len(cands)))]})
+				}
+			}
+			simrt.Go(fmt.Sprintf("reader-%d", r), guardTask(func() {
+				for _, in := range plan {
+					in := in
+					record(r+1, in, func() c09cout {
+						switch in.kind {
+						case "tip":
+							hdr, err := s.repo.Header(s.ctx, -1)
+							if err != nil || hdr == nil {
+								return c09cout{}
+							}
+							return c09cout{ok: true, hash: *hdr.BlockHash()}
+						case "hashAt":
+							hh, err := s.repo.Hash(s.ctx, in.target)
+							if err != nil || hh == nil {
+								return c09cout{}
+							}
+							return c09cout{ok: true, hash: *hh}
+						default:
+							hgt, ok := s.repo.Height(&in.hash)
+							return c09cout{ok: ok, height: hgt}
+						}
+					})
+				}
+			}))
+		}
+	})
+	S.Run(func() bool { return nTasks > 0 && finished == nTasks })
+	for _, p := range panics {
+		c.Violate("panic", "concurrent", "panic in a concurrent caller: %s", p)
+	}
+	if nTasks == 0 || finished != nTasks {
+		if len(c.Res.Violations) == 0 {
+			c.Res.Inconclusive = "callers-stuck"
+		}
+		return
+	}
+	model := porcupine.Model{
+		Init: func() interface{} { return initChain },
+		Step: func(state, input, output interface{}) (bool, interface{}) {
+			ch := state.(c09chain)
+			in := input.(c09cin)
+			out := output.(c09cout)
+			switch in.kind {
+			case "add":
+				hh := *in.hdr.BlockHash()
+				return out.ok, c09chain{ch.hs + string(hh[:])}
+			case "revert":
+				if in.target > ch.tip() {
+					return true, ch
+				}
+				return out.ok, c09chain{ch.hs[:(in.target+1)*32]}
+			case "tip":
+				return out.ok && out.hash == ch.at(ch.tip()), ch
+			case "hashAt":
+				if in.target < 0 || in.target > ch.tip() {
+					return !out.ok, ch
+				}
+				return out.ok && out.hash == ch.at(in.target), ch
+			default:
+				idx := strings.Index(ch.hs, string(in.hash[:]))
+				if idx < 0 || idx%32 != 0 {
+					return !out.ok, ch
+				}
+				return out.ok && out.height == idx/32, ch
+			}
+		},
+		Equal: func(a, b interface{}) bool { return a.(c09chain) == b.(c09chain) },
+	}
+	switch porcupine.CheckOperationsTimeout(model, ops, 20*time.Second) {
+	case porcupine.Illegal:
+		var sb strings.Builder
+		for _, o := range ops {
+			in := o.Input.(c09cin)
+			out := o.Output.(c09cout)
+			fmt.Fprintf(&sb, " [%d,%d]c%d:%s", o.Call, o.Return, o.ClientId, in.kind)
+			switch in.kind {
+			case "revert", "hashAt":
+				fmt.Fprintf(&sb, "(%d)", in.target)
+			case "heightOf":
+				fmt.Fprintf(&sb, "(%s)", shortHash(in.hash))
+			}
+			fmt.Fprintf(&sb, "=%v/%s/%d", out.ok, shortHash(out.hash), out.height)
+		}
+		c.Violate("not-linearizable", "blockstore", "no sequential order of the concurrent Add / Revert / Header(-1) / Hash / Height calls explains the answers (initial height %d):%s", initChain.tip(), sb.String())
+	case porcupine.Unknown:
+		c.Res.Inconclusive = "porcupine-timeout"
+		return
+	}
+	c.Probe("history_checked")
+	c.Res.Nontrivial = true
+	c.Res.Summary = fmt.Sprintf("initial height %d, %d operations, %d tasks, preempt=1/%d", initChain.tip(), len(ops), nTasks, S.PreemptDen)
+}
+
+func init() {
+	Register(&Check{Prop: "C09", Sub: "blockstore-concurrent", Weight: 4,
+		Real: []string{"internal/storage.BlockRepository (Add, Revert, Header(-1), Hash, Height)"},
+		Stub: []string{"disk (simdisk)", "goroutine scheduling (simrt baton, thread stalls)"},
+		Req:  []string{"history_checked"},
+		Rule: "one writer task (3-8 adds and reverts that all apply) and 1-3 reader tasks (tip header, hash at a height near the tip, height of a hash) interleaved by the tape at every lock; invoke/return stamped with a global counter; the history is checked with porcupine against the slice-of-headers model.",
+		Run:  runC09Concurrent})
 }
